@@ -153,6 +153,67 @@ def run(ctx):
                 ctx.fail("C09:log_pdf:in-place-edit:%s" % step.split(" clone")[0].split(" %")[0][:24].replace(" ", "-"), "after '%s' on a tree whose log_pdf had been queried, log_pdf is %.6f but -log(#compatible orders = %d) is %.6f" % (step, lp3, nb3, -math.log(nb3)),
                          {"tree": spec, "step": step, "forest_now": s3, "log_pdf": lp3, "n_orders": nb3})
         cases.append((spec, dist, log_pdf))
+    # ---- large trees: log_pdf against the exact integer evaluation of the count formula that Coq proves to be the number of
+    # compatible orders (C09_assembly_count_is_count / fcount_is_number_of_orders): clones, sibling groups and outlier sets of
+    # hundreds of data points (tables or approximations of log n! that are only right for small n show only here)
+    from math import factorial
+    from phyclone.smc.utils import RootPermutationDistribution as _RPD
+
+    def _count(node):
+        own, kids = node
+        c = factorial(len(own))
+        tot = 0
+        for k in kids:
+            ck, nk = _count(k)
+            c *= ck
+            tot += nk
+        m = factorial(tot)
+        for k in kids:
+            m //= factorial(_count(k)[1])
+        return c * m, tot + len(own)
+
+    def _fcount(spec):
+        c, tot = 1, 0
+        for r in spec[0]:
+            cr, nr = _count(r)
+            c *= cr
+            tot += nr
+        m = factorial(tot)
+        for r in spec[0]:
+            m //= factorial(_count(r)[1])
+        no = len(spec[1])
+        return c * m * (factorial(tot + no) // (factorial(tot) * factorial(no))) * factorial(no)
+
+    big_layouts = [(130, 5, 126, 0), (255, 1, 3, 2), (256, 0, 2, 1), (257, 4, 200, 3), (40, 30, 300, 257)]
+    if not ctx.quick:
+        big_layouts += [(512, 3, 2, 0), (300, 256, 20, 258), (1, 1, 1, 300)]
+    for (a_, b_, c_, no_) in big_layouts:
+        # root clone A (a_ points) with children B (b_ points, if any) and a single-point clone; second root C (c_ points); outliers
+        ntot = a_ + b_ + 1 + c_ + no_
+        bvals = rational_values(ctx.rng, ntot, 1, 2)
+        bdata = make_data(bvals, outlier_prob=0.1)
+        ids = list(range(ntot))
+        A, rest = ids[:a_], ids[a_:]
+        B, rest = rest[:b_], rest[b_:]
+        S1, rest = rest[:1], rest[1:]
+        C, O = rest[:c_], rest[c_:]
+        kidsA = ([(tuple(B), ())] if B else []) + [(tuple(S1), ())]
+        bspec = (((tuple(A), tuple(kidsA)), (tuple(C), ())), tuple(O))
+        bt = build_tree(bspec, bdata)
+        lp_big = float(_RPD.log_pdf(bt))
+        cnt = _fcount(bspec)
+        ctx.case(key=("large-tree", a_, b_, c_, no_), nontrivial=True, sample={"clone_sizes": [a_, b_, 1, c_], "outliers": no_, "log_pdf": lp_big, "log_count_exact": math.log(cnt)})
+        ctx.count("large_trees")
+        if abs(lp_big + math.log(cnt)) > 1e-9 * max(1.0, math.log(cnt)):
+            ctx.fail("C09:log_pdf:large-tree", "log_pdf is %.9f but -log(#compatible orders) is %.9f for clone sizes %s with %d outliers" % (lp_big, -math.log(cnt), [a_, b_, 1, c_], no_),
+                     {"clone_sizes": [a_, b_, 1, c_], "outliers": no_, "log_pdf": lp_big, "minus_log_count": -math.log(cnt)})
+        # the sampler on the large tree: one seeded draw is a compatible order over all points
+        import numpy as _np
+        sig = [int(d.idx) for d in _RPD.sample(bt, _np.random.default_rng(ctx.rng.randrange(10**9)))]
+        pos = {x: i for i, x in enumerate(sig)}
+        okc = sorted(sig) == ids and all(pos[x] > pos[y] for x in A for y in list(B) + S1)
+        if not okc:
+            ctx.fail("C09:sample:large-tree", "a draw on a large tree is not a compatible order of all data points", {"clone_sizes": [a_, b_, 1, c_], "outliers": no_})
     # ---- correspondence: model vs implementation inside Coq
     header = "\n".join([
         "From PV Require Import Model.Perm Model.CaseUtil.", "Open Scope nat_scope.",
